@@ -135,7 +135,6 @@ type shard struct {
 var shards [nShards]shard
 var nextID uint64
 
-
 // NumTerms reports the number of distinct terms built so far.
 func NumTerms() uint64 { return atomic.LoadUint64(&nextID) }
 
@@ -765,6 +764,14 @@ func Concat(hi, lo *Term) *Term {
 	w := hi.W + lo.W
 	if c := constFold(OConcat, w, 0, hi, lo); c != nil {
 		return c
+	}
+	// concat(x[127:64], x[63:0]) = x
+	if hi.Op == OExtract && lo.Op == OExtract && hi.A[0] == lo.A[0] && lo.Aux == 0 && hi.Aux == lo.W && hi.Aux+hi.W == hi.A[0].W {
+		return hi.A[0]
+	}
+	// concat(0, x) = zext(x)
+	if isZero(hi) {
+		return Zext(lo, w)
 	}
 	return intern(OConcat, w, 0, 0, 0, "", hi, lo)
 }
